@@ -1,7 +1,7 @@
 #!/bin/bash
 # usage: tools/trymut.sh <patch.diff> <prop> [funcfilter]   -- applies the patch to /repo, runs govc, reverts
 set -u
-patch="$1"; prop="$2"; f="${3:-}"
+patch="$(realpath "$1")"; prop="$2"; f="${3:-}"
 cd /repo || exit 2
 if [ -n "$(git status --porcelain)" ]; then echo "REFUSING: /repo has uncommitted changes (commit the contract files first)"; exit 2; fi
 git apply "$patch" || { echo "patch does not apply"; exit 2; }
